@@ -401,7 +401,16 @@ def generate(repo):
         trp = VTr({'tt': ('t', 's'), 'lo': ('lo', 's'), 'hi': ('hi', 's')})
         angp = prop(trp, ang)
         # the wrap-around branches that follow `ang_mask = ...`:  if c1: ang_mask |= X  elif c2: <assignments>; ang_mask = Y
-        body = list(inner_loop.body)
+        # (constants hoisted to the top of the function -- two_pi = 2*np.pi -- are inlined first)
+        consts = {}
+        for st in fn.body:
+            if isinstance(st, ast.Assign) and len(st.targets) == 1 and isinstance(st.targets[0], ast.Name):
+                v = subst(st.value, consts)
+                if all(isinstance(n_, (ast.Constant, ast.BinOp, ast.UnaryOp, ast.operator, ast.unaryop, ast.Load, ast.Attribute, ast.Name))
+                       and (not isinstance(n_, ast.Name) or n_.id in ('np', 'math')) and (not isinstance(n_, ast.Attribute) or n_.attr == 'pi')
+                       for n_ in ast.walk(v)):
+                    consts[st.targets[0].id] = v
+        body = [subst(s_, consts) for s_ in inner_loop.body]
         k_ang = [i for i, s_ in enumerate(body) if isinstance(s_, ast.Assign) and ast.unparse(s_.targets[0]) == 'ang_mask'][0]
         k_msk = [i for i, s_ in enumerate(body) if isinstance(s_, ast.Assign) and ast.unparse(s_.targets[0]) == 'mask'][0]
         between = body[k_ang + 1:k_msk]
